@@ -510,7 +510,17 @@ pub fn gen_random(rng: &mut Rng, cfg: &GenCfg) -> E1Scn {
     let mut weights = OpWeights::swarm(rng);
     weights.1 = cfg.stalls && rng.chance(1, 3);
     let n_senders = rng.range(1, cfg.max_senders);
-    let n_ops = rng.range(1, cfg.max_ops);
+    // one scenario in 25 is a long history (what only shows at the Nth repetition): ten times the usual length, and
+    // usually without the controls that end the job
+    let long = rng.chance(1, 25);
+    let n_ops = if long { rng.range(cfg.max_ops * 4, cfg.max_ops * 10) } else { rng.range(1, cfg.max_ops) };
+    if long && rng.chance(2, 3) {
+        weights.0[9] = 0;
+        weights.0[10] = 0;
+        if weights.0.iter().sum::<u64>() == 0 {
+            weights.0[0] = 1;
+        }
+    }
     let style = rng.below(4); // 0 burst, 1 settled, 2 mixed small gaps, 3 mixed
     let mut senders: Vec<Vec<Step>> = (0..n_senders).map(|_| Vec::new()).collect();
     for _ in 0..n_ops {
